@@ -1,12 +1,302 @@
 import IpaVerif.Model.Util
-/-! Line-protocol handlers for property C03 (model side). Import-free. -/
+import IpaVerif.Model.Dzkp
+/-! Line-protocol handlers for property C03 (model side) and the spec-side oracle. Import-free.
+
+Requests
+  c03.consts
+  c03.table U|V                                   rows `a,b,c,d;…`
+  c03.tableprod i j                               Σ_k U[i][k]·V[j][k]
+  c03.indices prover|right|left xl xr yl yr pl pr zr      (32-byte little-endian hex each) → digit strings
+  c03.lagrange from N M ys | at N r ys
+  c03.proof compute us vs | next r us vs | masks us vs p q | gdiff first zkps chs sum ptq
+            | final U|V digits chs mask
+  c03.hash2field lefts rights combinedhex exclude
+  c03.validate api ty count mpg seed dev           dev = `-` or helper:field:record:bit
+-/
 namespace IpaVerif.Driver.C03
-open IpaVerif.Util
+open IpaVerif.Util IpaVerif.PrimeField IpaVerif.Generated IpaVerif.Generated.Dzkp IpaVerif.Dzkp
 
-/-- `some response` if the request belongs to this property, else `none`. -/
-def handle (_toks : List String) : Option String := none
+def digits (xs : List Nat) : String := String.ofList (xs.map fun d => Char.ofNat (d + '0'.toNat))
+def parseDigits (s : String) : Option (List Nat) :=
+  if s = "-" then some [] else
+  s.toList.mapM fun c => if '0' ≤ c ∧ c ≤ '7' then some (c.toNat - '0'.toNat) else none
 
-/-- Property oracle on (request, implementation response): `some "holds"`, `some "fails <why>"`, or `none`. -/
-def oracle (_toks : List String) (_impl : String) : Option String := none
+def optList : Option (List Nat) → String
+  | some l => showNatList l
+  | none => "panic"
+def optNat : Option Nat → String
+  | some v => toString v
+  | none => "panic"
+
+def parseBlock (args : List String) : Option Block :=
+  match args.mapM parseHexBytes with
+  | some [xl, xr, yl, yr, pl, pr, zr] =>
+      if [xl, xr, yl, yr, pl, pr, zr].all (·.length == 32) then
+        some { xl := ofLeBytes xl, xr := ofLeBytes xr, yl := ofLeBytes yl, yr := ofLeBytes yr,
+               pl := ofLeBytes pl, pr := ofLeBytes pr, zr := ofLeBytes zr }
+      else none
+  | _ => none
+
+def rowsStr (t : List (List Nat)) : String := String.intercalate ";" (t.map showNats)
+
+def rowDot (u v : List Nat) : Nat := (u.zip v).foldl (fun acc ab => fadd acc (fmul ab.1 ab.2)) 0
+
+def fieldOfName : String → Option Flip
+  | "xl" => some .xl | "xr" => some .xr | "yl" => some .yl | "yr" => some .yr
+  | "pl" => some .pl | "pr" => some .pr | "zr" => some .zr | "z" => some .sentZ | _ => none
+
+def parseDev (s : String) : Option (Option (Hid × Flip)) :=
+  if s = "-" then some none else
+  match s.splitOn ":" with
+  | [h, f, _, _] => do
+      let h ← h.toNat?
+      if h ≥ 3 then none else
+      let f ← fieldOfName f
+      pure (some (Hid.ofIdx h, f))
+  | _ => none
+
+def verdicts (dev : Option (Hid × Flip)) : String :=
+  match dev with
+  | none => "ok,ok,ok"
+  | some (j, f) =>
+      String.intercalate "," (Hid.all.map fun h => if Hid.mem h (predictedRejecters j f) then "fail" else "ok")
+
+def L := compressedL
+def P := compressedP
+def M := compressedM
+
+def handleProof (op : String) (args : List String) : Option String :=
+  match op, args with
+  | "compute", [us, vs] => do
+      let us ← parseNatList us
+      let vs ← parseNatList vs
+      let uv := collectUV L us vs
+      match denominators L with
+      | none => pure "panic"
+      | some den => pure (optList (computeProofFromUv P (tableFrom L M den) uv.chunks))
+  | "next", [r, us, vs] => do
+      let r ← r.toNat?
+      let us ← parseNatList us
+      let vs ← parseNatList vs
+      let uv := collectUV L us vs
+      match denominators L with
+      | none => pure "panic"
+      | some den =>
+        match evalChunksAt L den r uv.chunks with
+        | none => pure "panic"
+        | some l => pure (showNatList (l.map (·.1)) ++ " " ++ showNatList (l.map (·.2)))
+  | "masks", [us, vs, p, q] => do
+      let us ← parseNatList us
+      let vs ← parseNatList vs
+      let p ← p.toNat?
+      let q ← q.toNat?
+      let uv0 := collectUV L us vs
+      match setMasks L uv0 p q with
+      | none => pure (if uv0.length ≥ L then "err" else "panic")
+      | some uv =>
+        pure ("ok " ++ String.intercalate ";" (uv.chunks.map fun (u, v) => showNats u ++ "/" ++ showNats v))
+  | "gdiff", [first, zk, chs, sum, ptq] => do
+      let first ← parseNatList first
+      let zk ← parseNatList zk
+      let chs ← parseNatList chs
+      let sum ← sum.toNat?
+      let ptq ← ptq.toNat?
+      let zkps := (List.range (zk.length / P)).map fun k => (zk.drop (k * P)).take P
+      pure (optList (computeGDifferences L P firstL firstP first zkps chs sum ptq))
+  | "final", [tb, ds, chs, mask] => do
+      let table ← if tb == "U" then some tableU else if tb == "V" then some tableV else none
+      let ds ← parseDigits ds
+      let chs ← parseNatList chs
+      let mask ← mask.toNat?
+      pure (optNat (recursivelyComputeFinalCheck L firstL table ds chs mask))
+  | _, _ => none
+
+def handle (toks : List String) : Option String :=
+  match toks with
+  | ["c03.consts"] => some s!"{inverseOfTwo} {minusOneHalf} {minusTwo}"
+  | ["c03.table", "U"] => some (rowsStr tableU)
+  | ["c03.table", "V"] => some (rowsStr tableV)
+  | ["c03.tableprod", i, j] => some <| (do
+      let i ← i.toNat?
+      let j ← j.toNat?
+      pure (toString (rowDot (tableU.getD i []) (tableV.getD j [])))).getD "bad-request"
+  | "c03.indices" :: which :: args => some <| (do
+      let B ← parseBlock args
+      match which with
+      | "prover" =>
+          let l : List (Nat × Nat) := tableIndicesProver B
+          pure (digits (l.map Prod.fst) ++ " " ++ digits (l.map Prod.snd))
+      | "right" => pure (digits (tableIndicesFromRightProver B))
+      | "left" => pure (digits (tableIndicesFromLeftProver B))
+      | _ => none).getD "bad-request"
+  | ["c03.lagrange", "from", n, m, ys] => some <| (do
+      let n ← n.toNat?
+      let m ← m.toNat?
+      let ys ← parseNatList ys
+      match denominators n with
+      | none => pure "panic"
+      | some den => pure (optList (evalTable (tableFrom n m den) ys))).getD "bad-request"
+  | ["c03.lagrange", "at", n, r, ys] => some <| (do
+      let n ← n.toNat?
+      let r ← r.toNat?
+      let ys ← parseNatList ys
+      match denominators n with
+      | none => pure "panic"
+      | some den => pure (optNat (evalAt n den r ys))).getD "bad-request"
+  | "c03.proof" :: op :: args => some ((handleProof op args).getD "bad-request")
+  | ["c03.hash2field", _l, _r, h, ex] => some <| (do
+      let bs ← parseHexBytes h
+      let ex ← ex.toNat?
+      pure (optNat (hashToField bs ex))).getD "bad-request"
+  | ["c03.validate", _api, _ty, _count, _mpg, _seed, dev] => some <| (do
+      let d ← parseDev dev
+      pure (verdicts d)).getD "bad-request"
+  | _ => none
+
+/-! ## spec side: plain arithmetic modulo p, Fermat inverses, bit formulas -/
+
+def p : Nat := 2305843009213693951
+
+def powMod (b e : Nat) : Nat := Id.run do
+  let mut r := 1
+  let mut b := b % p
+  let mut e := e
+  for _ in [0:64] do
+    if e % 2 == 1 then r := r * b % p
+    b := b * b % p
+    e := e / 2
+  return r
+
+def inv (a : Nat) : Nat := powMod a (p - 2)
+def subm (a b : Nat) : Nat := (a % p + p - b % p) % p
+
+/-- Lagrange interpolation through (0,y0)…(n−1,y_{n−1}) evaluated at `x`, from the textbook formula. -/
+def specInterp (ys : List Nat) (x : Nat) : Nat :=
+  let n := ys.length
+  ((List.range n).zip ys).foldl (fun acc (i, y) =>
+    let num := ((List.range n).filter (· ≠ i)).foldl (fun a j => a * subm x j % p) 1
+    let den := ((List.range n).filter (· ≠ i)).foldl (fun a j => a * subm i j % p) 1
+    (acc + y % p * num % p * inv den) % p) 0
+
+def bit (x j : Nat) : Nat := if x.testBit j then 1 else 0
+
+def specIndices (i0 i1 i2 : Nat) : List Nat := (List.range 256).map fun j => bit i0 j + 2 * bit i1 j + 4 * bit i2 j
+
+def chunks (L : Nat) (xs : List Nat) : List (List Nat) :=
+  if L = 0 then [] else (List.range ((xs.length + L - 1) / L)).map fun k => (List.range L).map fun i => xs.getD (k * L + i) 0
+
+def specFinal (tb : String) (ds chs : List Nat) (mask : Nat) : Option Nat := do
+  -- table rows from the defining formulas, plain arithmetic
+  let row (i : Nat) : List Nat :=
+    let a := i % 2; let c := i / 2 % 2; let e := i / 4 % 2
+    let s := subm 1 (2 * e)
+    if tb == "U" then [subm 0 (2 * a * c * s % p), c * s % p, a * s % p, subm 0 (s * inv 2 % p)]
+    else [a * c % 2 * s % p, c * s % p, a * s % p, s]
+  let c0 ← chs.head?
+  let first := ds.map fun d => specInterp (row d) c0
+  let mids := (chs.drop 1).take (chs.length - 2)
+  let vals := mids.foldl (fun it r => (chunks 4 it).map fun c => specInterp c r) first
+  if vals.length ≥ 4 ∨ vals.isEmpty ∨ chs.length < 2 ∨ chs.length > 14 then none else
+  let rl ← chs.getLast?
+  let arr := [mask, vals.getD 1 0, vals.getD 2 0, vals.getD 0 0]
+  pure (specInterp arr rl)
+
+def verdictOracle (dev impl : String) : Option String :=
+  let vs := impl.splitOn ","
+  if vs.length ≠ 3 then some "fails malformed verdict vector" else
+  if dev = "-" then
+    if vs.all (· == "ok") then some "holds" else some "fails an honest batch was rejected (or errored) by some helper"
+  else
+    match parseDev dev with
+    | some (some (j, f)) =>
+        if vs.all (· == "ok") then some "fails a batch with a single flipped recorded/transmitted bit was accepted by every helper"
+        else if f ∉ [Flip.pl, Flip.zr] ∧ vs.getD j.prev.toNat "" ≠ "fail" then
+          some "fails the helper to the left of the deviating one did not reject"
+        else some "holds"
+    | _ => none
+
+def oracle (toks : List String) (impl : String) : Option String :=
+  let verdict (o : Option Bool) (why : String) : Option String :=
+    match o with | some true => some "holds" | some false => some ("fails " ++ why) | none => some "unknown"
+  match toks with
+  | ["c03.consts"] => verdict (do
+      match (impl.splitOn " ").mapM String.toNat? with
+      | some [i2, mh, m2] => pure (2 * i2 % p == 1 && (mh + i2) % p == 0 && (m2 + 2) % p == 0 && i2 < p && mh < p && m2 < p)
+      | _ => none) "DZKP constants are not 1/2, −1/2, −2 modulo the prime"
+  | ["c03.tableprod", i, j] => verdict (do
+      let i ← i.toNat?
+      let j ← j.toNat?
+      let r ← impl.toNat?
+      let a := i % 2 == 1; let c := i / 2 % 2 == 1; let e := i / 4 % 2 == 1
+      let b := j % 2 == 1; let d := j / 2 % 2 == 1; let f := j / 4 % 2 == 1
+      let consistent := e == ((a && b) ^^ (c && d) ^^ f)
+      pure (r < p && (2 * r + (if consistent then 1 else p - 1)) % p == 0)) "Σ U[i]·V[j] is not −1/2 for a consistent triple / +1/2 for an inconsistent one"
+  | "c03.indices" :: which :: args => verdict (do
+      let B ← parseBlock args
+      match which with
+      | "right" => pure (impl == digits (specIndices B.xr B.yr ((B.xr &&& B.yr) ^^^ B.pr ^^^ B.zr)))
+      | "left" => pure (impl == digits (specIndices B.yl B.xl B.pl))
+      | "prover" =>
+          pure (impl == digits (specIndices B.xl B.yl ((B.xl &&& B.yr) ^^^ (B.yl &&& B.xr) ^^^ B.pr)) ++ " " ++
+                        digits (specIndices B.yr B.xr B.pr))
+      | _ => none) "table index at some position is not i0[j] + 2·i1[j] + 4·i2[j]"
+  | ["c03.lagrange", "from", n, m, ys] => verdict (do
+      let n ← n.toNat?
+      let m ← m.toNat?
+      let ys ← parseNatList ys
+      let r ← parseNatList impl
+      pure (ys.length == n && r == (List.range m).map fun k => specInterp ys (n + k))) "extrapolated values differ from the interpolating polynomial"
+  | ["c03.lagrange", "at", _n, r, ys] => verdict (do
+      let r ← r.toNat?
+      let ys ← parseNatList ys
+      pure ((← impl.toNat?) == specInterp ys r)) "value at r differs from the interpolating polynomial"
+  | ["c03.proof", "compute", us, vs] => verdict (do
+      let us ← parseNatList us
+      let vs ← parseNatList vs
+      let pr ← parseNatList impl
+      let cu := chunks 4 us
+      let cv := chunks 4 vs
+      let expect := (List.range 7).map fun x =>
+        (cu.zip cv).foldl (fun acc (u, v) => (acc + specInterp u x * specInterp v x) % p) 0
+      let total := (us.zip vs).foldl (fun acc (u, v) => (acc + u * v) % p) 0
+      pure (pr == expect && ((pr.take 4).foldl (· + ·) 0) % p == total)) "proof is not Σ_k u_k(x)·v_k(x) at x = 0..6, or its first L entries do not sum to Σ u·v"
+  | ["c03.proof", "next", r, us, vs] => verdict (do
+      let r ← r.toNat?
+      let us ← parseNatList us
+      let vs ← parseNatList vs
+      match impl.splitOn " " with
+      | [a, b] =>
+          pure ((← parseNatList a) == (chunks 4 us).map (specInterp · r) && (← parseNatList b) == (chunks 4 vs).map (specInterp · r))
+      | _ => none) "next-level u/v values are not the chunk polynomials evaluated at r"
+  | ["c03.proof", "gdiff", first, zk, chs, sum, ptq] => verdict (do
+      let first ← parseNatList first
+      let zk ← parseNatList zk
+      let chs ← parseNatList chs
+      let sum ← sum.toNat?
+      let ptq ← ptq.toNat?
+      let zkps := (List.range (zk.length / 7)).map fun k => (zk.drop (k * 7)).take 7
+      if zkps.isEmpty ∨ chs.isEmpty then pure (impl.startsWith "panic") else
+      let r ← parseNatList impl
+      let sums := ([first] ++ zkps.dropLast).map (fun z => (z.take 4).foldl (· + ·) 0 % p)
+        ++ [((zkps.getLastD []).take 4).drop 1 |>.foldl (· + ·) 0 |> (· % p), ptq]
+      let expected := [sum] ++ (chs.zip ([first] ++ zkps)).map fun (c, z) => specInterp z c
+      pure (r == (sums.zip expected).map fun (g, e) => subm g e)) "g differences are not (sum of the first L proof entries) − (previous proof interpolated at the challenge)"
+  | ["c03.proof", "final", tb, ds, chs, mask] => verdict (do
+      let ds ← parseDigits ds
+      let chs ← parseNatList chs
+      let mask ← mask.toNat?
+      match specFinal tb ds chs mask with
+      | none => pure (impl.startsWith "panic")
+      | some v => pure (impl == toString v)) "final p(r)/q(r) differs from the recursive evaluation of the u/v vector"
+  | ["c03.hash2field", _l, _r, h, ex] => verdict (do
+      let bs ← parseHexBytes h
+      let ex ← ex.toNat?
+      if 2 * ex ≥ p then pure (impl.startsWith "panic") else
+      let r ← impl.toNat?
+      pure (ex ≤ r && r < p && r == ofLeBytes (bs.take 16) % (p - ex) + ex)) "challenge lies inside the excluded interpolation domain or is not canonical"
+  | ["c03.validate", _api, _ty, _count, _mpg, _seed, dev] => verdictOracle dev impl
+  | "c03.table" :: _ => some "unknown"
+  | "c03.proof" :: _ => some "unknown"
+  | _ => none
 
 end IpaVerif.Driver.C03
